@@ -7,7 +7,7 @@
    is the session id call t asks for; a schedule is any list of [Step t] / [Fin t] events. *)
 From Coq Require Import List Arith NArith Bool.
 Import ListNotations.
-From SygmaV Require Import Model.C09 Proofs.C09.
+From SygmaV Require Import Model.C09 Proofs.C09 Proofs.C09_Batch.
 
 (* Every schedule, every assignment of session ids, every reachable state: two different calls for
    the same session id are never both running. *)
@@ -380,4 +380,103 @@ Example C09_comm_nonvacuous :
   let ops := [CSend 0 1; CSend 0 2; CSend 0 1; CClose 0; CSend 0 1; CClose 0] in
   peers_below 3 ops = true /\
   model_cobs 3 (sm_empty, 0) ops = [CWrote 0; CWrote 1; CWrote 0; CClosed [0; 1]; CWrote 2; CClosed [2]].
+Proof. vm_compute. repeat split. Qed.
+
+(* ------------------------------------------------------------------------------------------ *)
+(* Sessions with a BATCH of processes (Execute is handed a list; the bitcoin executor passes one signing
+   process per transaction input).  The loops of initiate / waitForStart hand every process of the
+   list to the pool with a per-iteration copy, the cleanup and the refusal stop every process of the
+   list.  For EVERY number of processes, role, outcome, phase, retried (the whole batch is run a second
+   time) or not: subscriptions = unsubscriptions, CloseSession once, every process stopped exactly
+   once, run once per round and never by two tasks at the same time, pending flag false: the judge
+   of the batch cases accepts the model. *)
+Theorem C09_batch_ok_model : forall r o ph retry np,
+  batch_ok (negb retry) np (batch_trace PerIteration PerIteration r o ph retry np)
+           (batch_maxsim PerIteration r o ph retry np) = true /\
+  (* a batch that is refused (a session with its id is live): every process stopped once, none run *)
+  refused_stops PerIteration np = repeat 1 np /\
+  refused_ok true (repeat 0 np) (refused_stops PerIteration np) = true.
+Proof. exact (fun r o ph retry np => conj (batch_ok_model r o ph retry np) (refused_ok_model np)). Qed.
+Print Assumptions C09_batch_ok_model.
+
+Theorem C09_batch_each_process_once : forall r o ph retry np p, p < np ->
+  let tr := batch_trace PerIteration PerIteration r o ph retry np in
+  (count_ev (is_run p) tr = batch_rounds r o ph retry /\
+   count_ev (is_stop p) tr = 1 /\
+   nth p (batch_maxsim PerIteration r o ph retry np) 0 = Nat.min 1 (batch_rounds r o ph retry)) /\
+  (* a session that is not retried is the session of C09_cleanup_complete *)
+  batch_trace PerIteration PerIteration r o ph false np = session_trace r o ph np.
+Proof. exact (fun r o ph retry np p H => conj (batch_each_process r o ph retry np p H) (batch_is_session r o ph np)). Qed.
+Print Assumptions C09_batch_each_process_once.
+
+(* what the judge of the batch cases means *)
+Theorem C09_batch_ok_sound : forall once np l ms, batch_ok once np l ms = true ->
+  (forall m, count_ev (is_sub m) l = count_ev (is_unsub m) l) /\
+  (forall p, p < np -> count_ev (is_stop p) l = 1 /\ (once = true -> count_ev (is_run p) l <= 1) /\
+                       nth p ms 0 <= 1) /\
+  last_pend l = Some false.
+Proof. exact batch_ok_sound. Qed.
+Print Assumptions C09_batch_ok_sound.
+
+(* The closures of a loop that capture the range variable itself (go 1.21: one variable per loop) and
+   are executed after the loop has moved on are refuted for every batch of two or more processes: in
+   the launching loops one process is inside Run twice and another never; in the Stop loop of the
+   cleanup one process is stopped np times and the others never (whatever else the session did). *)
+Theorem C09_batch_shared_variable_refuted : forall np, 2 <= np ->
+  (forall cs r o ph, runs r o ph = true ->
+     batch_ok true np (batch_trace SharedVariable cs r o ph false np)
+              (batch_maxsim SharedVariable r o ph false np) = false) /\
+  (forall cl once r o ph retry ms,
+     batch_ok once np (batch_trace cl SharedVariable r o ph retry np) ms = false).
+Proof.
+  exact (fun np H => conj (fun cs r o ph Hr => batch_shared_launch_refuted cs r o ph np H Hr)
+                          (fun cl once r o ph retry ms => batch_shared_stop_refuted cl once r o ph retry np ms H)).
+Qed.
+Print Assumptions C09_batch_shared_variable_refuted.
+
+(* ------------------------------------------------------------------------------------------ *)
+(* LONG HISTORIES on one coordinator.  In the interleaving model of the repaired Execute: after ANY
+   number k of sessions that ran to their end one after the other, with ANY session ids, a further
+   request t0 - for an id the coordinator has never seen or for the id of an ended session ([sid] is
+   arbitrary) - is admitted and gets as far as running its processes: admission does not depend on
+   how many sessions the coordinator has seen. *)
+Theorem C09_admission_independent_of_history : forall (sid : nat -> nat) (k t0 : nat), k <= t0 ->
+  probe_admitted sid k t0 = true /\
+  (* ... which is what the correspondence run compares the aggregated histories with ... *)
+  probe_admitted sid k t0 = hist_admits (N.of_nat k) /\
+  (* ... because after every whole session nothing is live: lock free, no flag set, later threads not started *)
+  (let st := exec New sid (hist_sched k) (init New) in
+   lock st = None /\ (forall s, pend st s = false) /\ (forall t, k <= t -> pcs st t = PLock)).
+Proof.
+  exact (fun sid k t0 H => conj (admission_independent_of_history sid k t0 H)
+                                (conj (hist_admits_is_model sid k t0 H) (hist_quiet sid k))).
+Qed.
+Print Assumptions C09_admission_independent_of_history.
+
+(* A capacity guard on the SIZE of the pending map, which keeps the entries of ended sessions (as
+   false), is refuted: after 128 ended sessions nothing is live, yet a new id and an ended id are refused. *)
+Theorem C09_size_guard_refuted :
+  let m := fold_left (guarded_session 128) (seq 0 128) [] in
+  forallb (fun s => negb (pm_get m s)) (seq 0 200) = true /\ guarded_admits 128 m 128 = false /\
+  guarded_admits 128 m 0 = false.
+Proof. exact size_guard_refuted. Qed.
+Print Assumptions C09_size_guard_refuted.
+
+(* Non-vacuity of the batch and history theorems: a batch of three as coordinator, retried; the
+   shared-variable launch and stop; three ended sessions with ids 5, 5, 7, then a request for id 5. *)
+Example C09_batch_hist_nonvacuous :
+  batch_trace PerIteration PerIteration Coord ProcessError DuringRun true 3 =
+    [EPend true; ESub MFail; ESub MReady; ERun 0; ERun 1; ERun 2; EUnsub MReady; EUnsub MFail;
+     ESub MFail; ESub MInitiate; ESub MStart; ERun 0; ERun 1; ERun 2; EUnsub MStart; EUnsub MInitiate;
+     EUnsub MFail; EClose; EPend false; EStop 0; EStop 1; EStop 2] /\
+  batch_maxsim PerIteration Coord ProcessError DuringRun true 3 = [1; 1; 1] /\
+  batch_maxsim SharedVariable Peer Success DuringRun false 3 = [0; 0; 3] /\
+  launch_evs SharedVariable 3 = [ERun 2; ERun 2; ERun 2] /\
+  batch_ok true 2 [EPend true; ERun 0; ERun 1; EClose; EPend false; EStop 0; EStop 1] [1; 2] = false /\
+  batch_ok true 2 [EPend true; ERun 0; ERun 1; EClose; EPend false; EStop 0; EStop 1] [1; 1] = true /\
+  dup_ok (Some (true, ([0; 1], [1; 1]))) = false /\ refused_ok true [0; 0] [1; 2] = false /\
+  probe_admitted (fun t => nth t [5; 5; 7; 5] 0) 3 3 = true /\
+  hist_ok 0 0 0 0 0 0 [(true, (true, (1, 1))); (false, (true, (1, 1)))] = true /\
+  hist_ok 1 0 0 0 0 0 [(true, (true, (1, 1)))] = false /\
+  hist_ok 0 0 0 0 0 0 [(false, (false, (0, 1)))] = false.
 Proof. vm_compute. repeat split. Qed.
